@@ -171,6 +171,8 @@ pub fn run(ctx: &Ctx) -> Outcome {
 
     // (3) nesting ladder, each rung in a subprocess
     let ladder = nesting_ladder(ctx);
+    // (4) huge string-length headers, in a subprocess
+    let lens = length_headers(ctx);
 
     let mut samples = vec![];
     let mut buf = vec![];
@@ -184,12 +186,13 @@ pub fn run(ctx: &Ctx) -> Outcome {
     let mut o = Outcome::new("exploration");
     o.set("evaluations", json!(total.evaluations));
     o.set("distinct_nontrivial", json!(total.ref_accepts));
-    o.set("rule", json!(format!("(1) every byte string over the alphabet {:?} of length 0..={} (all distinct); (2) every corpus document, each of its truncations and each single-position substitution by an alphabet symbol; (3) nesting ladder in subprocesses. Non-trivial = inputs the reference recogniser accepts as a sequence of well-formed values (counted; for (1) they are distinct strings, (2) may repeat some).", String::from_utf8_lossy(strings::SIGMA), max_len)));
+    o.set("rule", json!(format!("(1) every byte string over the alphabet {:?} of length 0..={} (all distinct); (2) every corpus document, each of its truncations and each single-position substitution by an alphabet symbol; (3) nesting ladder in subprocesses; (4) 18 huge / overflowing / zero-padded string-length headers in 6 positions (top level, inside a list, as dictionary value, in a tracker-like reply, with and without ':'), decoded in a subprocess. Non-trivial = inputs the reference recogniser accepts as a sequence of well-formed values (counted; for (1) they are distinct strings, (2) may repeat some).", String::from_utf8_lossy(strings::SIGMA), max_len)));
     o.set("sigma_strings", json!(sigma_evals));
     o.set("mutation_inputs", json!(mutation_evals));
     o.set("corpus_documents", json!(docs.len()));
     o.set("disagreements_by_class", json!(total.violations));
     o.set("nesting_ladder", ladder);
+    o.set("huge_length_headers", lens);
     o.set("samples", Value::Array(samples));
     o.set("exhaustive", json!(true));
     o.set("max_len", json!(max_len));
@@ -224,9 +227,98 @@ pub fn ladder_input(kind: &str, depth: usize, terminated: bool) -> Vec<u8> {
     v
 }
 
+/// String-length headers far beyond the input size, at top level and nested. They are decoded in a
+/// subprocess: an implementation that allocates what the header announces aborts the process
+/// ("memory allocation failed"), which cannot be caught in-process.
+pub fn length_header_family() -> Vec<Vec<u8>> {
+    let nums: Vec<String> = vec![
+        "2147483647", "2147483648", "4294967295", "4294967296", "9007199254740992", "4611686018427387904",
+        "9223372036854775807", "9223372036854775808", "9223372036854775809", "18446744073709551615",
+        "18446744073709551616", "18446744073709551617", "10000000000000000000", "100000000000000000000",
+        "99999999999999999999", "1000000000000000000000000000000", "00000000000000000000000000000003", "0000000000000000000000",
+    ]
+    .into_iter()
+    .map(String::from)
+    .collect();
+    let mut out = vec![];
+    for n in &nums {
+        for form in 0..6 {
+            let v: Vec<u8> = match form {
+                0 => format!("{}:", n).into_bytes(),
+                1 => format!("{}:abc", n).into_bytes(),
+                2 => format!("l{}:abce", n).into_bytes(),
+                3 => format!("d1:a{}:xe", n).into_bytes(),
+                4 => format!("d8:intervali1800e5:peers{}:e", n).into_bytes(),
+                _ => format!("{}", n).into_bytes(),
+            };
+            out.push(v);
+        }
+    }
+    out
+}
+
+/// `rdv --probe lens`: runs the family, one line per input: `<index> start` then `<index> ok|BAD <class> <summary>`.
+fn probe_lens() -> i32 {
+    crate::core::install_panic_hook();
+    for (i, input) in length_header_family().iter().enumerate() {
+        println!("{} start", i);
+        match compare(input).1 {
+            None => println!("{} ok", i),
+            Some(v) => println!("{} BAD {} {}", i, v.class, v.summary.replace('\n', " ")),
+        }
+    }
+    0
+}
+
+fn length_headers(ctx: &Ctx) -> Value {
+    let fam = length_header_family();
+    let exe = std::env::current_exe().expect("current_exe");
+    let out = std::process::Command::new(exe).args(["--probe", "lens"]).output().expect("cannot start probe subprocess");
+    let text = String::from_utf8_lossy(&out.stdout).to_string();
+    let mut last_started: Option<usize> = None;
+    let mut done = 0usize;
+    for line in text.lines() {
+        let mut parts = line.splitn(3, ' ');
+        let idx: usize = match parts.next().and_then(|x| x.parse().ok()) {
+            Some(i) => i,
+            None => continue,
+        };
+        match parts.next() {
+            Some("start") => last_started = Some(idx),
+            Some("ok") => done += 1,
+            Some("BAD") => {
+                done += 1;
+                let rest = parts.next().unwrap_or("");
+                let (class, summary) = rest.split_once(' ').unwrap_or((rest, ""));
+                let class: &'static str = match class {
+                    "decoder-panic" => "decoder-panic",
+                    "wrong-values" => "wrong-values",
+                    "rejects-well-formed" => "rejects-well-formed",
+                    "accepts-unterminated-container-at-eof" => "accepts-unterminated-container-at-eof",
+                    _ => "accepts-malformed",
+                };
+                ctx.violation(class, summary.to_string(), json!({"kind": "input", "hex": core::hex(&fam[idx]), "text": core::show(&fam[idx]), "origin": "length-header"}));
+            }
+            _ => {}
+        }
+    }
+    if !out.status.success() || done != fam.len() {
+        let idx = last_started.unwrap_or(0);
+        ctx.violation(
+            "huge-length-header-crashes-decoder",
+            format!("decoding {} ends the process ({:?})", core::show(&fam[idx]), out.status),
+            json!({"kind": "input-subprocess", "hex": core::hex(&fam[idx]), "text": core::show(&fam[idx])}),
+        );
+    }
+    json!({"inputs": fam.len(), "decoded_in_subprocess": done, "exit": format!("{:?}", out.status)})
+}
+
 /// `rdv --probe nest <target> <kind> <depth> <terminated> <stack_kib>`: decodes on a thread with
 /// the given stack; exit 0 = returned (prints accept/reject), anything else = crashed.
 pub fn probe_main(args: &[String]) -> i32 {
+    if args.len() == 1 && args[0] == "lens" {
+        return probe_lens();
+    }
     if args.len() != 6 || args[0] != "nest" {
         eprintln!("usage: rdv --probe nest <bdecoder|metainfo|tracker> <list|dict> <depth> <0|1> <stack_kib>");
         return 2;
@@ -341,6 +433,13 @@ pub fn replay(_ctx: &Ctx, r: &Value) -> i32 {
     let bytes: Vec<u8> = (0..hexs.len() / 2)
         .map(|i| u8::from_str_radix(&hexs[2 * i..2 * i + 2], 16).unwrap())
         .collect();
+    if r["kind"] == "input-subprocess" {
+        println!("input {} is decoded together with its family in a subprocess (it may end the process):", core::show(&bytes));
+        let exe = std::env::current_exe().expect("current_exe");
+        let out = std::process::Command::new(exe).args(["--probe", "lens"]).output().expect("probe");
+        println!("exit {:?}; last lines: {:?}", out.status, String::from_utf8_lossy(&out.stdout).lines().rev().take(2).collect::<Vec<_>>());
+        return if out.status.success() { 0 } else { 1 };
+    }
     println!("input: {}", core::show(&bytes));
     println!("reference: {:?}", refb::parse_all(&bytes));
     println!("BDecoder:  {:?}", core::catch(|| BDecoder::from_array(&bytes)));
